@@ -43,7 +43,10 @@ type fnGen struct {
 	loopDefs []string
 	resType  string // Coq type of the result value (with the receiver first when it is modified)
 	recvName string
-	strOK    bool // inside a discarded argument: string constants are accepted
+	viaName  string        // the explicit parameter that stands for the receiver's --via field
+	viaType  string        // its Coq type
+	deferred *ast.CallExpr // the single deferred call of the function (runs before every return)
+	strOK    bool          // inside a discarded argument: string constants are accepted
 }
 
 func (g *fnGen) failf(n ast.Node, format string, a ...any) { g.t.failf(n, format, a...) }
@@ -144,6 +147,29 @@ func (t *tr) function(fi *fnInfo) string {
 		} else {
 			g.recvName = coqIdent(fi.recv.Name())
 		}
+		if fi.via {
+			n := t.structOf(fi.recv.Type())
+			vf := t.via[n.Origin().Obj().Name()]
+			st := n.Origin().Underlying().(*types.Struct)
+			for i := 0; i < st.NumFields(); i++ {
+				if st.Field(i).Name() == vf {
+					g.viaName = coqIdent(vf)
+					g.viaType = t.coqType(fi.decl, st.Field(i).Type())
+				}
+			}
+			if g.viaName == g.recvName {
+				g.failf(fi.decl, "the receiver is named like its --via field %s", vf)
+			}
+			ast.Inspect(fi.decl, func(n ast.Node) bool {
+				if id, ok := n.(*ast.Ident); ok {
+					if v, ok := g.info.Defs[id].(*types.Var); ok && !v.IsField() && coqIdent(v.Name()) == g.viaName {
+						g.failf(id, "a variable is named like the --via field %s", vf)
+					}
+				}
+				return true
+			})
+			params = append(params, "("+g.viaName+" : "+g.viaType+")")
+		}
 		params = append(params, "("+g.recvName+" : "+t.coqType(fi.decl, fi.recv.Type())+")")
 	}
 	for i := 0; i < sig.Params().Len(); i++ {
@@ -158,6 +184,9 @@ func (t *tr) function(fi *fnInfo) string {
 		g.failf(fi.decl, "variadic function")
 	}
 	var rts []string
+	if fi.mutVia {
+		rts = append(rts, g.viaType)
+	}
 	if fi.mutates {
 		rts = append(rts, t.coqType(fi.decl, fi.recv.Type()))
 	}
@@ -178,6 +207,11 @@ func (t *tr) function(fi *fnInfo) string {
 	k.fall = func() []string {
 		if sig.Results().Len() != 0 {
 			g.failf(fi.decl, "control reaches the end of a function with results")
+		}
+		if g.deferred != nil {
+			var p []binding
+			g.runDeferred(&p)
+			return emitPre(p, k.ret(g.resultValue(nil)))
 		}
 		return k.ret(g.resultValue(nil))
 	}
@@ -235,7 +269,59 @@ func (g *fnGen) resultValue(vals []string) string {
 	if g.fi.mutates {
 		vals = append([]string{g.recvName}, vals...)
 	}
+	if g.fi.mutVia {
+		vals = append([]string{g.viaName}, vals...)
+	}
 	return tuple(vals)
+}
+
+// viaVar: the variable that stands for x.f, f a --via field: in a method of the
+// field's struct the explicit parameter, in a method of the pointed-to struct
+// the receiver (there is one instance of that struct: the translated code
+// creates values with a --via field only from its own receiver, see composite)
+func (g *fnGen) viaVar(at ast.Node, x *ast.SelectorExpr) string {
+	if g.fi.via {
+		if id, ok := ast.Unparen(x.X).(*ast.Ident); ok && g.info.Uses[id] == g.fi.recv {
+			return g.viaName
+		}
+	}
+	if r := g.viaRecv(g.typeOf(x)); r != "" {
+		return r
+	}
+	g.failf(at, "use of the --via field %s outside the methods of its struct and of the struct it points to", x.Sel.Name)
+	return ""
+}
+
+// viaRecv: the receiver's name when the receiver is a pointer to the struct ty points to
+func (g *fnGen) viaRecv(ty types.Type) string {
+	if g.fi.recv == nil || g.fi.via {
+		return ""
+	}
+	a, b := g.t.structOf(ty), g.t.structOf(g.fi.recv.Type())
+	if a != nil && b != nil && a.Origin().Obj() == b.Origin().Obj() {
+		return g.recvName
+	}
+	return ""
+}
+
+// viaOfCallee: the argument passed for the via parameter of the callee c (a
+// method of a struct with a --via field) called on the receiver expression recv
+func (g *fnGen) viaOfCallee(call *ast.CallExpr, c *fnInfo) string {
+	if g.fi.via {
+		return g.viaName
+	}
+	n := g.t.structOf(c.recv.Type())
+	vf := g.t.via[n.Origin().Obj().Name()]
+	st := n.Origin().Underlying().(*types.Struct)
+	for i := 0; i < st.NumFields(); i++ {
+		if st.Field(i).Name() == vf {
+			if r := g.viaRecv(st.Field(i).Type()); r != "" {
+				return r
+			}
+		}
+	}
+	g.failf(call, "call of %s, whose struct has a --via field, outside the methods of that struct and of the struct the field points to", c.name)
+	return ""
 }
 
 // ---------------------------------------------------------------------------
@@ -264,6 +350,10 @@ func (g *fnGen) varOf(e ast.Expr) *types.Var {
 		if tv, ok := g.info.Types[x.X]; ok && ptrSliceOf(tv.Type) {
 			return g.varOf(x.X)
 		}
+	case *ast.IndexExpr: // m[k] = ... assigns the variable that holds the map value
+		if tv, ok := g.info.Types[x.X]; ok && isMapType(tv.Type) {
+			return g.varOf(x.X)
+		}
 	}
 	return nil
 }
@@ -285,6 +375,24 @@ func (g *fnGen) assigned(lo, hi token.Pos, nodes ...ast.Node) []svar {
 		seen[v] = true
 		out = append(out, svar{coqIdent(v.Name()), g.t.coqType(at, v.Type()), v.Pos()})
 	}
+	viaSeen := false
+	addVia := func() {
+		if g.fi.via && !viaSeen {
+			viaSeen = true
+			out = append(out, svar{g.viaName, g.viaType, g.fi.recv.Pos() - 1})
+		}
+	}
+	place := func(l ast.Expr, at ast.Node) {
+		if g.t.throughVia(g.fi.pk, l) {
+			if g.fi.via {
+				addVia()
+			} else if id := rootIdent(g.info, g.viaBase(l)); id != nil {
+				add(g.varOf(g.fi.decl.Recv.List[0].Names[0]), at)
+			}
+			return
+		}
+		add(g.varOf(l), at)
+	}
 	for _, n := range nodes {
 		if n == nil {
 			continue
@@ -293,10 +401,10 @@ func (g *fnGen) assigned(lo, hi token.Pos, nodes ...ast.Node) []svar {
 			switch x := n.(type) {
 			case *ast.AssignStmt:
 				for _, l := range x.Lhs {
-					add(g.varOf(l), x)
+					place(l, x)
 				}
 			case *ast.IncDecStmt:
-				add(g.varOf(x.X), x)
+				place(x.X, x)
 			case *ast.RangeStmt:
 				if x.Key != nil {
 					add(g.varOf(x.Key), x)
@@ -307,7 +415,19 @@ func (g *fnGen) assigned(lo, hi token.Pos, nodes ...ast.Node) []svar {
 			case *ast.CallExpr:
 				if c := g.t.calleeOf(g.fi.pk, x); c != nil && c.mutates {
 					if sel, ok := ast.Unparen(x.Fun).(*ast.SelectorExpr); ok {
-						add(g.varOf(sel.X), x)
+						place(sel.X, x)
+					}
+				}
+				if c := g.t.calleeOf(g.fi.pk, x); c != nil && c.mutVia {
+					if g.fi.via {
+						addVia()
+					} else if g.fi.recv != nil && len(g.fi.decl.Recv.List[0].Names) == 1 {
+						add(g.varOf(g.fi.decl.Recv.List[0].Names[0]), x)
+					}
+				}
+				if id, ok := ast.Unparen(x.Fun).(*ast.Ident); ok && id.Name == "delete" && len(x.Args) == 2 {
+					if _, isB := g.info.Uses[id].(*types.Builtin); isB {
+						place(x.Args[0], x)
 					}
 				}
 			}
@@ -316,6 +436,24 @@ func (g *fnGen) assigned(lo, hi token.Pos, nodes ...ast.Node) []svar {
 	}
 	sort.SliceStable(out, func(i, j int) bool { return out[i].pos < out[j].pos })
 	return out
+}
+
+// viaBase: the sub-expression x.f (f a --via field) of a place that passes through it
+func (g *fnGen) viaBase(e ast.Expr) ast.Expr {
+	for {
+		switch x := ast.Unparen(e).(type) {
+		case *ast.SelectorExpr:
+			if g.t.isViaSel(g.fi.pk, x) {
+				return x
+			}
+			e = x.X
+			continue
+		case *ast.IndexExpr:
+			e = x.X
+			continue
+		}
+		return e
+	}
 }
 
 // captured: local variables declared outside [lo,hi) that the nodes mention,
@@ -537,6 +675,34 @@ func (g *fnGen) block(list []ast.Stmt, k kctx) []string {
 			}
 		}
 		return append(out, g.block(rest, k)...)
+	case *ast.DeferStmt:
+		// one deferred call of a translated method, registered at the top level of
+		// the function body: it runs before every return that follows (a panic ends
+		// the run: GoPanic carries no state, so what the deferred call would do then
+		// is not observable)
+		if !k.top || g.deferred != nil {
+			g.failf(s, "defer (only one, at the top level of the function body)")
+		}
+		c := g.t.calleeOf(g.fi.pk, s.Call)
+		if c == nil || c.errCtor || len(s.Call.Args) != 0 {
+			g.failf(s, "defer of something that is not a call of a translated method without arguments")
+		}
+		if sel, ok := ast.Unparen(s.Call.Fun).(*ast.SelectorExpr); !ok {
+			g.failf(s, "defer of a function call")
+		} else if _, ok := ast.Unparen(sel.X).(*ast.Ident); !ok {
+			g.failf(s, "defer of a method call on something that is not a variable")
+		}
+		for _, r := range rest {
+			if _, isFor := r.(*ast.ForStmt); isFor {
+				g.failf(s, "defer before a loop")
+			}
+			if _, isFor := r.(*ast.RangeStmt); isFor {
+				g.failf(s, "defer before a loop")
+			}
+		}
+		g.deferred = s.Call
+		out := g.block(rest, k)
+		return out
 	case *ast.ExprStmt:
 		call, ok := ast.Unparen(s.X).(*ast.CallExpr)
 		if !ok {
@@ -546,6 +712,16 @@ func (g *fnGen) block(list []ast.Stmt, k kctx) []string {
 			if _, isB := g.info.Uses[id].(*types.Builtin); isB && id.Name == "panic" {
 				g.discard(call.Args[0])
 				return []string{"gopanic"} // the statements after a panic are unreachable
+			}
+			if _, isB := g.info.Uses[id].(*types.Builtin); isB && id.Name == "delete" {
+				// delete(m, k): the variable or field that holds the map value gets the new value
+				if len(call.Args) != 2 || !isMapType(g.typeOf(call.Args[0])) {
+					g.failf(s, "delete")
+				}
+				var p []binding
+				m := g.expr(call.Args[0], &p)
+				kk := g.expr(call.Args[1], &p)
+				return append(emitPre(p, g.assignTo(call.Args[0], "mapdel "+paren(kk)+" "+paren(m))), g.block(rest, k)...)
 			}
 		}
 		switch libName(g.fi.pk, call) {
@@ -590,9 +766,34 @@ func (g *fnGen) block(list []ast.Stmt, k kctx) []string {
 	return nil
 }
 
+// runDeferred: the deferred call as a statement
+func (g *fnGen) runDeferred(p *[]binding) {
+	if !g.callStmt(g.deferred, p, "_") {
+		g.failf(g.deferred, "deferred call")
+	}
+}
+
 func (g *fnGen) returnStmt(s *ast.ReturnStmt, k kctx) []string {
 	sig := g.fi.obj.Type().(*types.Signature)
 	var p []binding
+	if g.deferred != nil {
+		// the results are evaluated first, then the deferred call runs
+		if len(s.Results) != sig.Results().Len() || !k.top {
+			g.failf(s, "this form of return in a function with a deferred call")
+		}
+		var tmps []string
+		for i, e := range s.Results {
+			if g.isMonadicCall(e) {
+				g.failf(s, "return of a call in a function with a deferred call")
+			}
+			v := g.exprAs(e, sig.Results().At(i).Type(), &p)
+			tmp := g.fresh()
+			p = append(p, binding{pat: tmp, rhs: v, isLet: true})
+			tmps = append(tmps, tmp)
+		}
+		g.runDeferred(&p)
+		return emitPre(p, k.ret(g.resultValue(tmps)))
+	}
 	if len(s.Results) == 1 && sig.Results().Len() > 1 || (len(s.Results) == 1 && k.top && !g.fi.mutates && g.isMonadicCall(s.Results[0])) {
 		call, ok := ast.Unparen(s.Results[0]).(*ast.CallExpr)
 		if !ok {
@@ -610,7 +811,7 @@ func (g *fnGen) returnStmt(s *ast.ReturnStmt, k kctx) []string {
 			return emitPre(p, k.ret(g.resultValue([]string{tmp})))
 		}
 		c := g.t.calleeOf(g.fi.pk, call)
-		if c == nil || c.mutates {
+		if c == nil || c.mutates || c.mutVia {
 			g.failf(s, "return of this call")
 		}
 		term := g.userCall(call, c, &p)
@@ -1051,6 +1252,16 @@ func (g *fnGen) assignTo(lhs ast.Expr, v string) []string {
 		return []string{"let " + coqIdent(x.Name) + " := " + v + " in"}
 	case *ast.IndexExpr:
 		var p []binding
+		if isMapType(g.typeOf(x.X)) {
+			// m[k] = v: the variable or field that holds the map value gets the new value
+			g.t.coqType(lhs, g.typeOf(x.X))
+			m := g.expr(x.X, &p)
+			kk := g.expr(x.Index, &p)
+			if len(p) != 0 {
+				g.failf(lhs, "assignment to a map element through an expression with effects")
+			}
+			return g.assignTo(x.X, "mapset "+paren(kk)+" "+paren(v)+" "+paren(m))
+		}
 		s := g.expr(x.X, &p)
 		if !isSliceType(g.typeOf(x.X)) {
 			g.failf(lhs, "assignment to an element of %s", g.typeOf(x.X))
@@ -1061,6 +1272,10 @@ func (g *fnGen) assignTo(lhs ast.Expr, v string) []string {
 		sel, ok := g.info.Selections[x]
 		if !ok || sel.Kind() != types.FieldVal {
 			g.failf(lhs, "assignment to this selector")
+		}
+		if g.t.isViaSel(g.fi.pk, x) {
+			// x.f with f a --via field: the instance it stands for
+			return []string{"let " + g.viaVar(lhs, x) + " := " + v + " in"}
 		}
 		if n := g.t.objectOf(g.typeOf(x.X)); n != nil {
 			var p []binding
@@ -1150,6 +1365,13 @@ func (g *fnGen) assign(s *ast.AssignStmt) []string {
 					return emitPre(p, nil)
 				}
 				p = nil
+			} else if c := g.t.calleeOf(g.fi.pk, call); c != nil && !c.errCtor && (c.mutates || c.mutVia) {
+				// place = x.M(...) with M modifying its receiver: through a temporary
+				tmp := g.fresh()
+				if g.callStmt(call, &p, tmp) {
+					return emitPre(p, g.assignTo(s.Lhs[0], tmp))
+				}
+				p = nil
 			}
 		}
 		v := g.exprAs(s.Rhs[0], g.lhsType(s.Lhs[0], s.Rhs[0]), &p)
@@ -1177,6 +1399,26 @@ func (g *fnGen) assign(s *ast.AssignStmt) []string {
 			x := g.expr(ta.X, &p)
 			p = append(p, binding{pat: tuple(pats), rhs: name + " " + paren(x)})
 			return emitPre(p, nil)
+		}
+		if ix, ok := ast.Unparen(s.Rhs[0]).(*ast.IndexExpr); ok && len(s.Lhs) == 2 && isMapType(g.typeOf(ix.X)) {
+			// v, ok := m[k]
+			g.t.coqType(s, g.typeOf(ix.X))
+			var pats []string
+			for _, l := range s.Lhs {
+				id, ok := ast.Unparen(l).(*ast.Ident)
+				if !ok {
+					g.failf(s, "map lookup assigned to something that is not a variable")
+				}
+				if id.Name == "_" {
+					pats = append(pats, "_")
+				} else {
+					pats = append(pats, coqIdent(id.Name))
+				}
+			}
+			var p []binding
+			m := g.expr(ix.X, &p)
+			kk := g.expr(ix.Index, &p)
+			return emitPre(p, []string{"let '" + tuple(pats) + " := mapget " + paren(kk) + " " + paren(m) + " in"})
 		}
 		call, ok := ast.Unparen(s.Rhs[0]).(*ast.CallExpr)
 		if !ok {
@@ -1285,6 +1527,8 @@ func (g *fnGen) callStmt(call *ast.CallExpr, p *[]binding, pats ...string) bool 
 			sel := ast.Unparen(call.Fun).(*ast.SelectorExpr)
 			if id, ok := ast.Unparen(sel.X).(*ast.Ident); ok {
 				pats = append([]string{coqIdent(id.Name)}, pats...)
+			} else if vs, ok := ast.Unparen(sel.X).(*ast.SelectorExpr); ok && g.t.isViaSel(g.fi.pk, vs) {
+				pats = append([]string{g.viaVar(call, vs)}, pats...)
 			} else if rootIdent(g.info, sel.X) != nil {
 				// the receiver is a field path: the new value is stored back
 				tmp := g.fresh()
@@ -1293,6 +1537,9 @@ func (g *fnGen) callStmt(call *ast.CallExpr, p *[]binding, pats ...string) bool 
 			} else {
 				g.failf(call, "call of a receiver-modifying method on something that is not a variable or a field path")
 			}
+		}
+		if c.mutVia {
+			pats = append([]string{g.viaOfCallee(call, c)}, pats...)
 		}
 		term := g.userCall(call, c, p)
 		pat := tuple(pats)
@@ -1721,6 +1968,9 @@ func (g *fnGen) userCall(call *ast.CallExpr, c *fnInfo, p *[]binding) string {
 		if !ok {
 			g.failf(call, "method expression")
 		}
+		if c.via {
+			parts = append(parts, g.viaOfCallee(call, c))
+		}
 		parts = append(parts, paren(g.expr(sel.X, p)))
 	}
 	if len(call.Args) != sig.Params().Len() {
@@ -1857,7 +2107,7 @@ func (g *fnGen) call(call *ast.CallExpr, p *[]binding) string {
 			}
 			return c.name
 		}
-		if c.mutates {
+		if c.mutates || c.mutVia {
 			g.failf(call, "call of the receiver-modifying method %s inside an expression (only as a statement or as the whole right-hand side)", c.name)
 		}
 		if c.obj.Type().(*types.Signature).Results().Len() != 1 {
